@@ -211,3 +211,319 @@ pub mod wal {
         }
     }
 }
+
+/// Facade over the crate-private pager / B+tree / tuple entry points and a raw page dump.
+/// Logic-free: the audit logic lives in the out-of-tree harness.
+pub mod tree {
+    use crate::{
+        DBConfig,
+        io::pager::{Pager, SharedPager},
+        multithreading::coordinator::Snapshot,
+        schema::{Column, Schema},
+        storage::{
+            core::traits::{BtreeMetadata, BtreeOps},
+            page::{BtreePage, OverflowPage},
+            tuple::{Row, Tuple, TupleBuilder},
+        },
+        tree::{
+            accessor::{Accessor, BtreeWriteAccessor},
+            bplustree::{Btree, SearchResult},
+        },
+        types::{Blob, DataType, DataTypeKind, Int32, Int64, UInt64},
+    };
+    use std::{collections::HashSet, io::Write, path::Path};
+
+    /// Key of a facade tree: one of the key schemas the engine uses (row ids, signed, text, composite).
+    #[derive(Debug, Clone, PartialEq)]
+    pub enum Key {
+        U(u64),
+        I(i64),
+        T(Vec<u8>),
+        IT(i32, Vec<u8>),
+    }
+
+    #[derive(Debug, Clone, Copy, PartialEq, Eq)]
+    pub enum KeyKind {
+        U,
+        I,
+        T,
+        IT,
+    }
+
+    /// Uninterpreted contents of one slot of a B+tree page.
+    #[derive(Debug, Clone)]
+    pub struct RawCell {
+        pub left_child: Option<u64>,
+        pub is_overflow: bool,
+        pub overflow_page: Option<u64>,
+        /// cell payload as stored in the page (for overflow cells: the in-page part)
+        pub data: Vec<u8>,
+    }
+
+    #[derive(Debug, Clone)]
+    pub struct RawBtreePage {
+        pub page_number: u64,
+        pub right_child: Option<u64>,
+        pub next_sibling: Option<u64>,
+        pub previous_sibling: Option<u64>,
+        pub free_space: u32,
+        pub num_slots: u16,
+        pub is_leaf: bool,
+        pub cells: Vec<RawCell>,
+    }
+
+    #[derive(Debug, Clone)]
+    pub struct RawOverflowPage {
+        pub page_number: u64,
+        pub next: Option<u64>,
+        pub num_bytes: u32,
+    }
+
+    #[derive(Debug, Clone)]
+    pub struct RawPageZero {
+        pub first_free_page: Option<u64>,
+        pub last_free_page: Option<u64>,
+        pub total_pages: u64,
+        pub free_pages: u32,
+        pub page_size: u32,
+    }
+
+    pub struct Tree {
+        pager: SharedPager,
+        root: u64,
+        schema: Schema,
+        kind: KeyKind,
+        min_keys: usize,
+        siblings: usize,
+    }
+
+    fn schema_for(kind: KeyKind) -> Schema {
+        let mut cols = match kind {
+            KeyKind::U => vec![Column::new_with_defaults(DataTypeKind::BigUInt, "k")],
+            KeyKind::I => vec![Column::new_with_defaults(DataTypeKind::BigInt, "k")],
+            KeyKind::T => vec![Column::new_with_defaults(DataTypeKind::Blob, "k")],
+            KeyKind::IT => vec![
+                Column::new_with_defaults(DataTypeKind::Int, "k1"),
+                Column::new_with_defaults(DataTypeKind::Blob, "k2"),
+            ],
+        };
+        let nk = cols.len();
+        cols.push(Column::new_with_defaults(DataTypeKind::Blob, "v"));
+        Schema::new_table_with_num_keys(cols, nk)
+    }
+
+    fn reader_snapshot() -> Snapshot {
+        // every facade tuple is created by transaction 1; this reader sees it as committed
+        Snapshot::new(1_000_000, 1_000_000, Some(999_999), HashSet::new(), HashSet::new())
+    }
+
+    impl Tree {
+        /// Creates a fresh pager at `path` and one empty tree in it.
+        pub fn create(path: impl AsRef<Path>, config: DBConfig, kind: KeyKind) -> std::io::Result<Self> {
+            let pager = SharedPager::from(Pager::from_config(config, path)?);
+            let root = pager.write().allocate_page::<BtreePage>()?;
+            Ok(Tree {
+                pager,
+                root,
+                schema: schema_for(kind),
+                kind,
+                min_keys: config.min_keys_per_page,
+                siblings: config.num_siblings_per_side,
+            })
+        }
+
+        pub fn root(&self) -> u64 {
+            self.root
+        }
+
+        fn btree(&self) -> Btree<BtreeWriteAccessor> {
+            Btree::new(self.root, self.pager.clone(), self.min_keys, self.siblings)
+                .with_accessor(BtreeWriteAccessor::new())
+        }
+
+        fn row(&self, key: &Key, payload: &[u8]) -> Result<Row, String> {
+            let mut v: Vec<DataType> = match (self.kind, key) {
+                (KeyKind::U, Key::U(k)) => vec![DataType::BigUInt(UInt64(*k))],
+                (KeyKind::I, Key::I(k)) => vec![DataType::BigInt(Int64(*k))],
+                (KeyKind::T, Key::T(k)) => vec![DataType::Blob(Blob::from(k.as_slice()))],
+                (KeyKind::IT, Key::IT(a, b)) => vec![
+                    DataType::Int(Int32(*a)),
+                    DataType::Blob(Blob::from(b.as_slice())),
+                ],
+                _ => return Err("key does not match the tree's key kind".into()),
+            };
+            v.push(DataType::Blob(Blob::from(payload)));
+            Ok(Row::new(v.into_boxed_slice()))
+        }
+
+        fn tuple(&self, key: &Key, payload: &[u8]) -> Result<Tuple, String> {
+            let row = self.row(key, payload)?;
+            TupleBuilder::from_schema(&self.schema)
+                .build(&row, 1)
+                .map_err(|e| e.to_string())
+        }
+
+        fn key_bytes(&self, key: &Key) -> Result<Box<[u8]>, String> {
+            let t = self.tuple(key, &[])?;
+            let offset = Tuple::keys_offset(self.schema.num_values());
+            Ok(Box::from(&t.effective_data()[offset..]))
+        }
+
+        pub fn insert(&mut self, key: &Key, payload: &[u8]) -> Result<(), String> {
+            let t = self.tuple(key, payload)?;
+            self.btree().insert(self.root, t, &self.schema).map_err(|e| e.to_string())
+        }
+
+        pub fn update(&mut self, key: &Key, payload: &[u8]) -> Result<(), String> {
+            let t = self.tuple(key, payload)?;
+            self.btree().update(self.root, t, &self.schema).map_err(|e| e.to_string())
+        }
+
+        pub fn upsert(&mut self, key: &Key, payload: &[u8]) -> Result<(), String> {
+            let t = self.tuple(key, payload)?;
+            self.btree().upsert(self.root, t, &self.schema).map_err(|e| e.to_string())
+        }
+
+        pub fn remove(&mut self, key: &Key) -> Result<(), String> {
+            let kb = self.key_bytes(key)?;
+            self.btree().remove(self.root, &kb, &self.schema).map_err(|e| e.to_string())
+        }
+
+        fn decode(&self, row: Row) -> Result<(Key, Vec<u8>), String> {
+            let s = row.as_slice();
+            let blob = |d: &DataType| -> Result<Vec<u8>, String> {
+                match d {
+                    DataType::Blob(b) => b.data().map(|x| x.to_vec()).map_err(|e| e.to_string()),
+                    other => Err(format!("expected blob, got {other:?}")),
+                }
+            };
+            let (key, vi) = match self.kind {
+                KeyKind::U => match &s[0] {
+                    DataType::BigUInt(k) => (Key::U(k.0), 1),
+                    o => return Err(format!("bad key {o:?}")),
+                },
+                KeyKind::I => match &s[0] {
+                    DataType::BigInt(k) => (Key::I(k.0), 1),
+                    o => return Err(format!("bad key {o:?}")),
+                },
+                KeyKind::T => (Key::T(blob(&s[0])?), 1),
+                KeyKind::IT => match &s[0] {
+                    DataType::Int(a) => (Key::IT(a.0, blob(&s[1])?), 2),
+                    o => return Err(format!("bad key {o:?}")),
+                },
+            };
+            Ok((key, blob(&s[vi])?))
+        }
+
+        pub fn lookup(&mut self, key: &Key) -> Result<Option<Vec<u8>>, String> {
+            let kb = self.key_bytes(key)?;
+            let mut bt = self.btree();
+            let r = bt.search(&kb, &self.schema).map_err(|e| e.to_string())?;
+            let out = match r {
+                SearchResult::Found(pos) => {
+                    let row = bt
+                        .get_row_at(pos, &self.schema, &reader_snapshot())
+                        .map_err(|e| e.to_string())?
+                        .ok_or_else(|| "found entry not visible".to_string())?;
+                    Some(self.decode(row)?.1)
+                }
+                SearchResult::NotFound(_) => None,
+            };
+            bt.accessor_mut().map_err(|e| e.to_string())?.clear();
+            Ok(out)
+        }
+
+        /// Forward scan: every entry in iteration order.
+        pub fn scan(&mut self) -> Result<Vec<(Key, Vec<u8>)>, String> {
+            let mut bt = self.btree();
+            if bt.is_empty().map_err(|e| e.to_string())? {
+                return Ok(vec![]);
+            }
+            let positions: Vec<_> = {
+                let iter = bt.iter_forward().map_err(|e| e.to_string())?;
+                iter.collect()
+            };
+            let mut out = Vec::with_capacity(positions.len());
+            for p in positions {
+                let p = p.map_err(|e| e.to_string())?;
+                let row = bt
+                    .get_row_at(p, &self.schema, &reader_snapshot())
+                    .map_err(|e| e.to_string())?
+                    .ok_or_else(|| "scanned entry not visible".to_string())?;
+                out.push(self.decode(row)?);
+            }
+            bt.accessor_mut().map_err(|e| e.to_string())?.clear();
+            Ok(out)
+        }
+
+        pub fn height(&mut self) -> Result<usize, String> {
+            self.btree().height().map_err(|e| e.to_string())
+        }
+
+        pub fn flush(&mut self) -> std::io::Result<()> {
+            self.pager.write().flush()
+        }
+
+        pub fn pages(&self) -> Pages {
+            Pages { pager: self.pager.clone() }
+        }
+    }
+
+    /// Raw page access through the pager (dirty cached pages are seen).
+    pub struct Pages {
+        pager: SharedPager,
+    }
+
+    impl Pages {
+        pub fn for_database(db: &crate::Database) -> Self {
+            Pages { pager: db.pager().clone() }
+        }
+
+        pub fn page_zero(&self) -> RawPageZero {
+            let p = self.pager.read();
+            let h = p.header_unchecked();
+            RawPageZero {
+                first_free_page: h.first_free_page,
+                last_free_page: h.last_free_page,
+                total_pages: h.total_pages,
+                free_pages: h.free_pages,
+                page_size: h.page_size,
+            }
+        }
+
+        pub fn btree_page(&self, id: u64) -> std::io::Result<RawBtreePage> {
+            self.pager.write().with_page::<BtreePage, _, _>(id, |page| {
+                let n = page.num_slots() as usize;
+                let cells = (0..n)
+                    .map(|i| {
+                        let c = page.cell(i);
+                        RawCell {
+                            left_child: c.left_child(),
+                            is_overflow: c.is_overflow(),
+                            overflow_page: c.overflow_page(),
+                            data: c.effective_data().to_vec(),
+                        }
+                    })
+                    .collect();
+                let h = page.metadata();
+                RawBtreePage {
+                    page_number: h.page_number,
+                    right_child: h.right_child,
+                    next_sibling: h.next_sibling,
+                    previous_sibling: h.previous_sibling,
+                    free_space: h.free_space,
+                    num_slots: h.num_slots,
+                    is_leaf: page.is_leaf(),
+                    cells,
+                }
+            })
+        }
+
+        pub fn overflow_page(&self, id: u64) -> std::io::Result<RawOverflowPage> {
+            self.pager.write().with_page::<OverflowPage, _, _>(id, |page| {
+                let h = page.metadata();
+                RawOverflowPage { page_number: h.page_number, next: h.next, num_bytes: h.num_bytes }
+            })
+        }
+    }
+}
